@@ -200,6 +200,62 @@ def alternatives(fa: FA, expr, at: int = None, _seen=None):
     return [(expr, at)]
 
 
+def value_cases(fa: FA, expr, at: int = None, _seen=None):
+    """Like `alternatives`, for values that may be BUILT UP after they are bound: a local that statements put
+    things into (`acc = []` ... `acc.append(x)`) stands for itself — its contents are part of its value flow, which
+    the literal it was bound to does not show."""
+    if at is None:
+        at = at_of(fa, expr)
+    seen = _seen if _seen is not None else set()
+    if isinstance(expr, ast.IfExp):
+        return value_cases(fa, expr.body, at, seen) + value_cases(fa, expr.orelse, at, seen)
+    if isinstance(expr, ast.Name) and fa.df.is_local(expr.id) and not any(nm == expr.id for (nm, _s, _v) in mutation_sites(fa)):
+        defs = fa.df.reaching(at, expr.id)
+        if defs and all(d.kind == "assign" and d.value is not None for d in defs):
+            out = []
+            for d in defs:
+                key = (d.node, d.name)
+                if key in seen:
+                    continue
+                seen.add(key)
+                out += value_cases(fa, d.value, d.node, seen)
+            return out
+    return [(expr, at)]
+
+
+def guarded_cases(fa: FA, e, at, lits=(), _seen=None):
+    """[(case, cfg node, literals)]: the values `e` may hold, each with the literals of the conditional
+    expressions / `or` chains that select it; a local bound by plain assignments (or still holding a parameter)
+    stands for what was assigned.  case = ('param', name) for a parameter, else ('expr', node)."""
+    seen = _seen if _seen is not None else set()
+    lits = tuple(lits)
+    if isinstance(e, ast.IfExp):
+        return guarded_cases(fa, e.body, at, lits + tuple(fa._atoms(e.test, at, True)), seen) + \
+            guarded_cases(fa, e.orelse, at, lits + tuple(fa._atoms(e.test, at, False)), seen)
+    if isinstance(e, ast.BoolOp) and isinstance(e.op, ast.Or):
+        out, neg = [], ()
+        for i, v in enumerate(e.values):
+            last = i == len(e.values) - 1
+            out += guarded_cases(fa, v, at, lits + neg + (() if last else tuple(fa._atoms(v, at, True))), seen)
+            neg += tuple(fa._atoms(v, at, False))
+        return out
+    if isinstance(e, ast.Name) and fa.df.is_local(e.id):
+        defs = fa.df.reaching(at, e.id)
+        if defs and all(d.kind == "param" or (d.kind == "assign" and d.value is not None) for d in defs):
+            out = []
+            for d in defs:
+                if d.kind == "param":
+                    out.append((("param", d.name), at, lits))
+                    continue
+                key = (d.node, d.name)
+                if key in seen:
+                    continue
+                seen.add(key)
+                out += guarded_cases(fa, d.value, d.node, lits, seen)
+            return out
+    return [(("expr", e), at, lits)]
+
+
 def param_rooted(fa: FA, name_node, at: int, param: str) -> bool:
     """Does the Name hold the object bound to parameter `param` here (the parameter itself or a plain alias)?"""
     if not isinstance(name_node, ast.Name):
